@@ -74,3 +74,8 @@ pub proof fn lemma_pcs_nlen_up(p: Seq<u8>, off: int, nlen: int, n2: int)
     lemma_pcs_bounds(p, off, nlen);
     if b != 0 { lemma_pcs_bounds(p, off + b + 1, nlen + b + 1); lemma_pcs_nlen_up(p, off + b + 1, nlen + b + 1, n2 + b + 1); }
 }
+
+// the name the renamer writes for an expanded name: the rewritten one, or the original when nothing matches
+pub open spec fn renamed_name(nm: Seq<u8>, target: Seq<u8>, source: Seq<u8>, suffix: bool) -> Seq<u8> {
+    match replace_spec(nm, target, source, suffix) { Rep::New(w) => w, _ => nm }
+}
